@@ -2,3 +2,4 @@ import MpdSpec.Names
 import MpdSpec.Tokenizer
 import MpdSpec.Grammar
 import MpdSpec.FrameSpec
+import MpdSpec.Listing
